@@ -129,6 +129,27 @@ def generate(name, maxk, stride=1):
         lines.append("#[cfg(not(skip_x%d))] pub mod x%d { use super::*; use entrait::*; %s }" % (i, i, item))
         where[len(lines)] = i
         keys[i] = key
+    # ---- hygiene variants: the same items stamped out by a macro_rules! macro whose ARGUMENTS supply the trait
+    # name (fn / mod mode), the function / method names and the first parameter's name, while `self`, the deps
+    # parameter, the second parameter and every other token come from the macro BODY. Identifiers of the two
+    # origins carry different hygiene contexts; only resolution tells them apart (rules resolve, they do not spell).
+    import re
+    for k, (i, key, item) in enumerate(points(maxk)):
+        if any(o not in ("?Send",) for o in key if o in FN_OPTS + TRAIT_OPTS + ["unimock = false"]):
+            continue
+        if "async_trait" in key:
+            continue  # async_trait's own expansion names `self` from its call site
+        body = item
+        if key[0] in ("fn", "mod"):
+            body = re.sub(r"\bT\b", "$t", body)
+        body = re.sub(r"\bf\b", "$f", body)
+        body = re.sub(r"\bg\b", "$g", body)
+        body = re.sub(r"\ba\b", "$a", body)
+        hi = 100000 + i
+        lines.append("#[cfg(not(skip_x%d))] pub mod x%d { use super::*; use entrait::*; "
+                     "macro_rules! stamp { ($t:ident, $f:ident, $g:ident, $a:ident, $ti:ident) => { %s }; } stamp!(T, f, g, a, TrImpl); }" % (hi, hi, body))
+        where[len(lines)] = hi
+        keys[hi] = ("hygiene",) + key
     with open(os.path.join(d, "src", "lib.rs"), "w") as f:
         f.write("\n".join(lines) + "\n")
     return d, where, keys
@@ -160,6 +181,8 @@ def load_cross(report, config, tier):
         key = "/".join(keys.get(i, ("?",)))
         dg = diags[0]
         kt = keys.get(i, ("?",))
+        if kt[0] == "hygiene":
+            kt = kt[1:]
         props = {"fn": {"C01", "C03", "C04"}, "mod": {"C01", "C08", "C04"}, "trait": {"C06"}, "inversion": {"C07"}}.get(kt[0], set())
         props = set(props)
         if any(x in kt for x in ("async", "mixed", "async_trait", "?Send")):
